@@ -5,9 +5,9 @@ decoded into *fresh* python objects for every call, so "a structural copy holdin
 same wire string decoded twice.
 
   cell     as pv.proto (NI:/NF:/NB: numpy scalars, F:nan a fresh float('nan'), NF:nan the shared np.nan)
-  PT:<us>  pd.Timestamp        DT:<us>  datetime.date
+  PT:<us>  pd.Timestamp        DT:<us>  datetime.date        HF:<q>|HF:nan  np.float32 (value q/4)
   (L ..) (T ..) (D (k v)..)    (DC <n> (k v)..)   n=1 pyg_base.Dict, n=2 pyg_base.dictattr
-  (A <dtype i|f|b|U|o> (<shape>) cells..)   (S (labels) cells..)   (DF (index) (columns) cells row-major..)
+  (A <dtype i|f|e|b|U|o> (<shape>) cells..)   e = float32   (S (labels) cells..)   (DF (index) (columns) cells row-major..)
 """
 import datetime, itertools
 import numpy as np
@@ -17,18 +17,20 @@ from ..engine import Finding
 
 ID = 'C14'
 TITLE = 'eq is a NaN-aware, type-strict equivalence on values, containers and pandas'
-LEAN_FILES = ['Basic', 'Sort', 'Eq', 'EqDriver', 'EqLemmas', 'EqDictLemmas', 'C14']
+LEAN_FILES = ['Basic', 'Sort', 'Eq', 'EqDriver', 'EqLemmas', 'EqDictLemmas', 'EqSame', 'C14']
 RULE = ('distinct (x, y) protocol lines with x and y spelled differently on which eq returned a boolean '
         '(pairs of identical atoms are not counted)')
 TRUSTED = ['correspondence harness (pv.engine, pv.proto) and the generators / decoder of pv.props.c14',
            'Lean driver parser (PygModel/Basic.lean, EqDriver.lean)']
 ASSUMPTIONS = ['CPython == on None/bool/int/float/str/datetime/date and on lists/tuples/dicts of them is the reference function Cell.pyEq / pyEqV (sampled by the pyeq op)',
                'numpy scalars and pd.Timestamp are == to the python values the wire format identifies them with; np.datetime64 scalars are not generated (day-resolution datetime64 == date and == Timestamp although Timestamp != date, so python == itself is not transitive there)',
-               'np.vectorize(eq) visits every cell of two equally shaped arrays; pd.Index == pd.Index is elementwise and raises on different lengths; index/column labels are NaN-free',
+               'np.vectorize(eq) visits every cell of two equally shaped arrays; list(pd.Index) yields the labels as the python / pandas scalars the wire format spells (a NaN among datetime labels is NaT, which the model treats as the NaN label it is spelled as)',
                'object identity (the `x is y` shortcut) is not modelled: every call decodes fresh objects; the shared np.nan object is generated (NF:nan)',
-               'dict keys are distinct strings; pandas extension arrays, NaT, np.float32 and Series names are outside the universe']
+               'numbers are spelled exactly (ints of any size, floats that are multiples of 1/4 - 2**53 and its neighbours included); np.float32 scalars and arrays hold such values exactly',
+               'dict keys are distinct strings; pandas extension arrays, NaT cells, complex / Decimal NaN, None labels and Series names are outside the universe']
 
 D = datetime.datetime
+BIG = 2 ** 53
 
 
 # ---------------------------------------------------------------- wire construction
@@ -42,6 +44,8 @@ def w(x):
         return x
     if isinstance(x, pd.Timestamp):
         return W('PT:%d' % proto.dt2us(x.to_pydatetime()))
+    if isinstance(x, F32):
+        return W('HF:nan' if x.v != x.v else 'HF:%d' % int(x.v * 4))
     if isinstance(x, list):
         return W('(L' + ''.join(' ' + w(v) for v in x) + ')')
     if isinstance(x, tuple):
@@ -69,12 +73,20 @@ def DF(idx, cols, *cells):
 
 # ---------------------------------------------------------------- decoding into fresh python objects
 
-DTYPES = {'i': np.int64, 'f': np.float64, 'b': bool, 'U': str}
+DTYPES = {'i': np.int64, 'f': np.float64, 'e': np.float32, 'b': bool, 'U': str}
+
+
+class F32(object):
+    """generator-side marker of an np.float32 scalar"""
+    def __init__(self, v):
+        self.v = v
 
 
 def dec_cell(a):
     if a.startswith('PT:'):
         return pd.Timestamp(proto.us2dt(int(a[3:])))
+    if a.startswith('HF:'):
+        return np.float32('nan') if a == 'HF:nan' else np.float32(int(a[3:]) / 4)
     return proto.dec_cell(a)
 
 
@@ -103,28 +115,50 @@ def dec(x):
         return a.reshape(shape)
     if head == 'S':
         idx, cells = [dec_cell(i) for i in rest[0]], [dec(c) for c in rest[1:]]
-        s = pd.Series(_column(cells), index=pd.Index(idx) if idx else pd.Index([], dtype=object))
+        s = pd.Series(_column(cells), index=_index(idx))
         return s
     if head == 'DF':
         idx, cols = [dec_cell(i) for i in rest[0]], [dec_cell(c) for c in rest[1]]
         cells = [dec(c) for c in rest[2:]]
         n, m = len(idx), len(cols)
-        data = {j: _column([cells[i * m + j] for i in range(n)]) for j in range(m)}
-        df = pd.DataFrame(data, index=pd.Index(idx) if idx else pd.Index([], dtype=object))
-        df.columns = pd.Index(cols) if cols else pd.Index([], dtype=object)
+        # eq reads a frame through ONE ndarray (np.vectorize): a float column next to an int column makes that array float64 and
+        # rounds ints beyond 2**53, so such a frame is not the value the wire spells - its columns stay objects instead
+        mixed = _lossy(cells)
+        data = {j: _column([cells[i * m + j] for i in range(n)], mixed) for j in range(m)}
+        df = pd.DataFrame(data, index=_index(idx))
+        df.columns = _index(cols)
         return df
     raise ValueError('bad node head %r' % (head,))
 
 
-def _column(cells):
+def _index(labels):
+    """the axis labels as a pd.Index; a float64 index would round big ints that stand next to floats: then the labels stay objects"""
+    if not labels:
+        return pd.Index([], dtype=object)
+    if any(isinstance(c, float) for c in labels) and any(isinstance(c, int) and not isinstance(c, bool) and abs(c) >= 2 ** 53 for c in labels):
+        return pd.Index(labels, dtype=object)
+    return pd.Index(labels)
+
+
+def _lossy(cells):
+    return (any(isinstance(c, float) for c in cells) and
+            any(isinstance(c, int) and not isinstance(c, bool) and abs(c) >= 2 ** 53 for c in cells))
+
+
+def _column(cells, as_objects=False):
     """a pandas column from decoded cells: containers are stored as objects, never expanded"""
-    if any(isinstance(c, (list, tuple, dict, np.ndarray, pd.Series, pd.DataFrame)) for c in cells):
+    if as_objects or any(isinstance(c, (list, tuple, dict, np.ndarray, pd.Series, pd.DataFrame)) for c in cells):
         a = np.empty(len(cells), dtype=object)
         for i, c in enumerate(cells):
             a[i] = c
         return a
     if not cells:
         return np.array([], dtype=float)
+    if _lossy(cells):
+        a = np.empty(len(cells), dtype=object)     # a float column would round the big ints: keep the cells as they are spelled
+        for i, c in enumerate(cells):
+            a[i] = c
+        return a
     return cells
 
 
@@ -140,7 +174,7 @@ def kind(sx):
 def plain(sx):
     """NaN-free value built from python scalars, lists, tuples and plain dicts only"""
     if isinstance(sx, str):
-        return not sx.endswith(':nan') and sx[:3] not in ('NI:', 'NF:', 'NB:')    # numpy scalars broadcast under ==
+        return not sx.endswith(':nan') and sx[:3] not in ('NI:', 'NF:', 'NB:', 'HF:')    # numpy scalars broadcast under ==
     if sx[0] in ('L', 'T'):
         return all(plain(y) for y in sx[1:])
     if sx[0] == 'D':
@@ -156,6 +190,14 @@ def universe():
     U = [None, True, False, 0, 1, -1, 2, 1.0, 2.5, nan, np.nan, np.float64('nan'), float('inf'), float('-inf'),
          '', 'a', 'b', 'ab', D(2020, 1, 1), datetime.date(2020, 1, 1), D(2020, 1, 2, 3), ts,
          np.int64(1), np.float64(1.0), np.float64(2.5), np.bool_(True),
+         # numpy scalars of another width; numbers where float64 stops being exact (numpy == rounds the int, python == does not)
+         F32(1.0), F32(2.5), F32(nan), BIG, BIG + 1, float(BIG), np.int64(BIG), np.int64(BIG + 1), np.float64(BIG), [BIG + 1], [np.float64(BIG)],
+         A('i', (1,), BIG + 1), A('f', (1,), float(BIG)), A('e', (2,), 1.0, nan), A('e', (2,), 1.0, 2.5), A('f', (2,), 1.0, 2.5),
+         S([BIG], 1.0), S([float(BIG)], 1.0), S([BIG + 1], 1.0),
+         # axis labels: a string that spells a date is not that date; NaN / NaT labels are labels
+         S(['2020-01-01'], 1.0), S([D(2020, 1, 1)], 1.0), S(['2020-01-01 00:00'], 1.0), S([ts], 1.0),
+         DF([0], ['2020-01-01'], 1.0), DF([0], [D(2020, 1, 1)], 1.0), DF([0], ['1/1/2020'], 1.0),
+         S([nan], 1.0), S([0.0, nan], 1.0, 2.0), S([D(2020, 1, 1), nan], 1.0, 2.0), S(['a', nan], 1.0, 2.0), DF([0], [nan], 1.0), DF([nan, 1.0], ['a'], 1.0, 2.0),
          # empty containers of each kind
          [], (), {}, DC(1), DC(2), A('f', (0,)), A('f', (0, 3)), A('f', (0, 5)), A('f', (2, 0)), S([]), DF([], []), DF([], ['a']),
          # sequences
@@ -186,22 +228,30 @@ def universe():
 # ---------------------------------------------------------------- random nested values
 
 SCALARS = [None, True, False, 0, 1, -1, 2, 3, 1.0, 2.0, 2.5, -0.25, '', 'a', 'b', 'ab', D(2020, 1, 1), D(2020, 1, 2), datetime.date(2020, 1, 1),
-           pd.Timestamp('2020-01-02'), np.int64(1), np.float64(2.5), np.float64(1.0), np.bool_(False), float('inf')]
-LABELS = [[0, 1, 2, 3], [1, 2, 3, 4], ['a', 'b', 'c', 'd'], [D(2020, 1, 1), D(2020, 1, 2), D(2020, 1, 3), D(2020, 1, 6)], [0.0, 1.0, 2.0, 3.0]]
-COLS = [['a', 'b', 'c'], ['b', 'a', 'c'], [0, 1, 2], ['x', 'y', 'z']]
+           pd.Timestamp('2020-01-02'), np.int64(1), np.float64(2.5), np.float64(1.0), np.bool_(False), float('inf'),
+           BIG, BIG + 1, float(BIG), np.int64(BIG + 1), np.float64(BIG), F32(2.5), F32(1.0)]
+LABELS = [[0, 1, 2, 3], [1, 2, 3, 4], ['a', 'b', 'c', 'd'], [D(2020, 1, 1), D(2020, 1, 2), D(2020, 1, 3), D(2020, 1, 6)], [0.0, 1.0, 2.0, 3.0],
+          ['2020-01-01', '2020-01-02', '2020-01-03', '2020-01-06'], [0.0, float('nan'), 2.0, 3.0], [D(2020, 1, 1), float('nan'), D(2020, 1, 3), D(2020, 1, 6)],
+          [BIG, BIG + 1, BIG + 2, BIG + 3], [float(BIG), float(BIG + 2), float(BIG + 4), float(BIG + 6)]]
+COLS = [['a', 'b', 'c'], ['b', 'a', 'c'], [0, 1, 2], ['x', 'y', 'z'], ['2020-01-01', '2020-01-02', '2020-01-03'], [D(2020, 1, 1), D(2020, 1, 2), D(2020, 1, 3)],
+        ['a', float('nan'), 'c']]
+# what `mutate` turns a label into: other labels, the other spelling of a date (string <-> datetime), NaN
+LABEL_ALTS = [7, 'q', 2.5, '2020-01-01', D(2020, 1, 1), '2020-01-01 00:00', '1/1/2020', float('nan'), BIG, float(BIG), BIG + 1]
 
 
 def rand_scalar(rng, nan_rate=0.15):
     if rng.random() < nan_rate:
-        return rng.choice([float('nan'), np.nan, np.float64('nan')])
+        return rng.choice([float('nan'), np.nan, np.float64('nan'), F32(float('nan'))])
     return rng.choice(SCALARS)
 
 
 def rand_num(rng, dtype):
     if dtype == 'i':
-        return rng.choice([0, 1, 2, 3, -1])
+        return rng.choice([0, 1, 2, 3, -1, BIG, BIG + 1])
     if dtype == 'f':
-        return rng.choice([0.0, 1.0, 2.0, 2.5, -0.25, float('nan'), float('nan')])
+        return rng.choice([0.0, 1.0, 2.0, 2.5, -0.25, float('nan'), float('nan'), float(BIG)])
+    if dtype == 'e':
+        return rng.choice([0.0, 1.0, 2.0, 2.5, -0.25, float('nan')])
     if dtype == 'b':
         return rng.choice([True, False])
     return rng.choice(['a', 'b', 'ab', ''])
@@ -234,7 +284,7 @@ def rand_val(rng, depth):
         return w(items) if c == 0 else DC(c, **items)
     if r < 0.85:
         shape = rand_shape(rng)
-        dtype = rng.choice(['i', 'f', 'f', 'b', 'U', 'o'])
+        dtype = rng.choice(['i', 'f', 'f', 'e', 'b', 'U', 'o'])
         if dtype == 'o':
             return A('o', shape, *[rand_val(rng, depth - 1) for _ in range(prod(shape))])
         return A(dtype, shape, *[rand_num(rng, dtype) for _ in range(prod(shape))])
@@ -248,6 +298,19 @@ def rand_val(rng, depth):
     m = rng.choice([0, 1, 1, 2])
     cols = rng.choice(COLS)[:m]
     return DF(idx, cols, *[rand_num(rng, dtype) for _ in range(k * m)])
+
+
+def _relabel(rng, a):
+    """another label; a datetime label preferably becomes a string spelling it and vice versa"""
+    if a[:2] in ('T:', 'PT') and rng.random() < 0.5:
+        t = dec_cell(a)
+        return w(rng.choice([t.strftime('%Y-%m-%d'), t.strftime('%Y-%m-%d %H:%M'), '%d/%d/%d' % (t.month, t.day, t.year)]))
+    if a.startswith('S:') and rng.random() < 0.5:
+        try:
+            return w(pd.Timestamp(proto.dec_cell(a)).to_pydatetime())
+        except Exception:
+            pass
+    return w(rng.choice(LABEL_ALTS))
 
 
 def mutate(rng, sx):
@@ -293,6 +356,8 @@ def mutate(rng, sx):
             return ['L'] + cells
         if r < 0.55 and dtype == 'i':
             return ['A', 'f', shape] + [proto.enc(float(int(c[2:]))) for c in cells]
+        if r < 0.6 and dtype in 'fe' and not any(abs(int(c[2:])) > 2 ** 20 for c in cells if not c.endswith('nan')):
+            return ['A', {'f': 'e', 'e': 'f'}[dtype], shape] + cells
         if cells:
             i = rng.randrange(len(cells))
             c = mutate(rng, cells[i]) if dtype == 'o' else w(rand_num(rng, dtype))
@@ -302,7 +367,7 @@ def mutate(rng, sx):
         idx, cells = sx[1], sx[2:]
         if r < 0.3 and idx:
             i = rng.randrange(len(idx))
-            return ['S', idx[:i] + [w(rng.choice([7, 'q', 2.5]))] + idx[i + 1:]] + cells
+            return ['S', idx[:i] + [_relabel(rng, idx[i])] + idx[i + 1:]] + cells
         if r < 0.4:
             return ['DF', idx, ['I:0']] + cells
         if r < 0.5:
@@ -315,10 +380,10 @@ def mutate(rng, sx):
         idx, cols, cells = sx[1], sx[2], sx[3:]
         if r < 0.3 and cols:
             i = rng.randrange(len(cols))
-            return ['DF', idx, cols[:i] + [w(rng.choice(['q', 9]))] + cols[i + 1:]] + cells
+            return ['DF', idx, cols[:i] + [_relabel(rng, cols[i])] + cols[i + 1:]] + cells
         if r < 0.5 and idx:
             i = rng.randrange(len(idx))
-            return ['DF', idx[:i] + [w(rng.choice([7, 'q']))] + idx[i + 1:], cols] + cells
+            return ['DF', idx[:i] + [_relabel(rng, idx[i])] + idx[i + 1:], cols] + cells
         if cells:
             i = rng.randrange(len(cells))
             return ['DF', idx, cols] + cells[:i] + [w(rand_num(rng, rng.choice('if')))] + cells[i + 1:]
@@ -326,7 +391,7 @@ def mutate(rng, sx):
     return sx
 
 
-PLAIN_SCALARS = [x for x in SCALARS if not isinstance(x, np.generic)]
+PLAIN_SCALARS = [x for x in SCALARS if not isinstance(x, (np.generic, F32))]
 
 
 def rand_plain(rng, depth):
@@ -404,7 +469,7 @@ def run_line(state, sx):
 def _nan_spelling(x):
     """a NaN is a NaN whichever object holds it: python float, the shared np.nan, an np.float64 scalar"""
     if isinstance(x, str):
-        return 'F:nan' if x in ('NF:nan', 'XF:nan') else x
+        return 'F:nan' if x in ('NF:nan', 'XF:nan', 'HF:nan') else x
     return [_nan_spelling(y) for y in x]
 
 
